@@ -155,8 +155,8 @@ def gen_thread(rng, t, max_ops):
         kw['zz_unknown'] = child()   # refused after the valid ones were applied
       kind = rng.choice(['assign', 'copy_with'])
       ops.append({'op': kind, 'c': c, 'kwargs': kw})
-      if kind == 'copy_with':
-        fn_of.append(fn)
+      if kind == 'copy_with' and 'zz_unknown' not in kw:
+        fn_of.append(fn)   # (a refused copy_with adds no configuration)
     elif r < 0.89:
       new_fn = 'n0b' if fn == 'n0' else ('n0' if fn == 'n0b' else rng.choice(['n0', 'n0b', 'N2']))
       ops.append({'op': 'update_callable', 'c': c, 'fn': new_fn,
